@@ -279,3 +279,27 @@ def concrete_walk(fn, env, stop, limit=400):
             return None, env
         prev, b = b, nb
     return None, env
+
+
+def concrete_walk_any(fn, env, stop):
+    """concrete_walk, but a branch whose condition is not determined by env takes its FALSE arm (used where the undetermined tests guard optional extras)"""
+    b, prev = fn.blocks[0], None
+    for _ in range(400):
+        for i in b.insts:
+            if i.op == "phi" and prev is not None:
+                for v, frm in i.ops:
+                    if frm == prev.id:
+                        x = ceval(fn, v, {k_: v_ for k_, v_ in env.items() if not isinstance(v_, tuple)})
+                        env[i.id] = x if x is not None else ("sym", tuple(v[:2]))
+            if stop(i):
+                return i, env
+        t = b.term
+        if t.op != "br":
+            return None, env
+        if t.ops:
+            c = ceval(fn, t.ops[0], {k_: v_ for k_, v_ in env.items() if not isinstance(v_, tuple)})
+            nb = b.succs[0 if c else 1]
+        else:
+            nb = b.succs[0]
+        prev, b = b, nb
+    return None, env
